@@ -11,6 +11,7 @@ wt=/tmp/seedv-$id$v
 unset GOTOOLCHAIN GOSUMDB; export GOFLAGS=-mod=mod GOPROXY=off
 [ -f "$src/patch.diff" ] || { echo "no patch at $src"; exit 2; }
 mkdir -p "$dst"; log="$dst/verify.log"; : > "$log"
+oldnote=$(python3 -c "import json,sys;print(json.load(open('$dst/meta.json')).get('note',''))" 2>/dev/null)
 git -C /repo worktree remove --force "$wt" >/dev/null 2>&1; rm -rf "$wt"
 git -C /repo worktree add --detach "$wt" HEAD >/dev/null 2>&1
 cleanup() { git -C /repo worktree remove --force "$wt" >/dev/null 2>&1; rm -rf "$wt"; }
@@ -44,12 +45,13 @@ echo "== our checks" >> "$log"
 res=$(tools/mutant.sh "$src/patch.diff" "$id" "$@" 2>&1); echo "$res" | cut -c1-600 >> "$log"
 caught=$(echo "$res" | grep -E "^C[0-9]+: (CAUGHT|MISSED)" | tr '\n' ' ')
 cp "$src/patch.diff" "$dst/"; for f in "$src"/*; do b=$(basename "$f"); case "$b" in patch.diff|verify.log) ;; *) cp "$f" "$dst/";; esac; done
-python3 - "$dst" "$id" "$v" "$rc_without" "$rc_with" "$suite" "$caught" "$democmd" <<'PY'
+python3 - "$dst" "$id" "$v" "$rc_without" "$rc_with" "$suite" "$caught" "$democmd" "$oldnote" <<'PY'
 import json,sys,os
-dst,id,v,rcw,rcwith,suite,caught,cmd=sys.argv[1:]
+dst,id,v,rcw,rcwith,suite,caught,cmd,oldnote=sys.argv[1:]
 p=os.path.join(dst,'meta.json')
 try: m=json.load(open(p))
 except Exception: m={}
+if oldnote: m["note"]=oldnote
 m.update({"property":id,"variant":v,"demo_cmd":cmd,
  "confirmed":{"demo_exit_without_change":int(rcw),"demo_exit_with_change":int(rcwith),"existing_suite_exit_with_change":int(suite)},
  "our_checks":caught.strip(),
